@@ -56,189 +56,9 @@ func runC02(c *Ctx) {
 	if !ok {
 		return
 	}
-	stateFld := p.FieldVar("api/v1beta1", "CommonStatus", "CurrentStepState")
-	idxFld := p.FieldVar("api/v1beta1", "CommonStatus", "CurrentStepIndex")
-	if stateFld == nil || idxFld == nil {
-		c.Unresolved("R2.1", "fields v1beta1.CommonStatus.CurrentStepState/CurrentStepIndex")
-		return
-	}
-	rInit := ConstVal(p.ConstObj("api/v1alpha1", "ProgressingReasonInitializing"))
-	phaseHealthy := ConstVal(p.ConstObj("api/v1beta1", "RolloutPhaseHealthy"))
+	checkStepStores(c, sc, "R2.1", "R2.1i", "R2.1k", nil)
 
-	upgradeDone := func(fs []Fact) bool {
-		return HasFact(fs, FTrue(MResult("doCanaryUpgrade", 0))) && HasFact(fs, FNil(MResult("doCanaryUpgrade", 1)))
-	}
-	fullReplica := func(fs []Fact) bool {
-		return HasFact(fs, FTrue(MCall("v1beta1.IsRealPartition"))) &&
-			HasFact(fs, FCmp(">=", MResult("intstr.GetScaledValueFromIntOrPercent", 0), MHas(MField("Replicas"))))
-	}
-	jumpGuard := func(fs []Fact) bool {
-		return HasFact(fs, FCmp("!=", MField("NextStepIndex"), MCall("util.NextBatchIndex"))) &&
-			HasFact(fs, FCmp(">", MField("NextStepIndex"), MConst("0")))
-	}
-	replicasEqual := func(pol bool) FactM {
-		m := MCall("reflect.DeepEqual", MHas(MField("Replicas")), MHas(MField("Replicas")))
-		if pol {
-			return FTrue(m)
-		}
-		return FFalse(m)
-	}
-
-	// facts along call paths from doProgressingInRolling for the user-request handlers
-	pathFactsFrom := func(fn *ssa.Function, site ssa.Instruction) [][]Fact {
-		var out [][]Fact
-		for _, cp := range p.CallPaths(fn, func(f *ssa.Function) bool { return f.Name() == "doProgressingInRolling" }, 4) {
-			out = append(out, PathFacts(cp, site))
-		}
-		return out
-	}
-	allPaths := func(fn *ssa.Function, site ssa.Instruction, m FactM) bool {
-		pf := pathFactsFrom(fn, site)
-		if len(pf) == 0 {
-			return false
-		}
-		for _, fs := range pf {
-			if !HasFact(fs, m) {
-				return false
-			}
-		}
-		return true
-	}
-
-	for _, fn := range p.RepoFuncs() {
-		for _, st := range StoresToField(fn, func(fa *ssa.FieldAddr) bool { return TermOf(fa).Fld == stateFld }) {
-			vt := TermOf(st.Val)
-			construct := FuncName(fn) + "#store(CurrentStepState="
-			if vt.Op != "const" {
-				// copy code: value is a load of the same-named field of another object
-				if vt.Op == "field" && vt.Name == "CurrentStepState" {
-					continue
-				}
-				c.Ob("R2.1", construct+"non-constant)", st.Pos(), false, "step state written with a non-constant value", "undecided: "+vt.String())
-				continue
-			}
-			fs := FactsAtInstr(st)
-			var ok bool
-			var need string
-			switch vt.Name {
-			case sc.upgrade:
-				ok = HasFact(fs, stateIs(sc.init))
-				need = "in the case of state " + sc.init
-			case sc.routing:
-				ok = upgradeDone(fs) || (jumpGuard(fs) && HasFact(fs, replicasEqual(true)))
-				need = "doCanaryUpgrade()==(true,nil), or a jump (NextStepIndex != natural next, > 0) between steps of equal replicas"
-			case sc.analysis:
-				ok = (HasFact(fs, FTrue(MResult("trafficrouting.Manager.DoTrafficRouting", 0))) && HasFact(fs, FNil(MResult("trafficrouting.Manager.DoTrafficRouting", 1))) && HasFact(fs, stateIs(sc.routing))) ||
-					(upgradeDone(fs) && fullReplica(fs))
-				need = "DoTrafficRouting()==(true,nil) in state " + sc.routing + ", or upgrade done on a full-replica real-partition step (traffic handled in Init)"
-			case sc.paused:
-				ok = HasFact(fs, FTrue(MResult("doCanaryMetricsAnalysis", 0))) && HasFact(fs, stateIs(sc.analysis))
-				need = "doCanaryMetricsAnalysis done in state " + sc.analysis
-			case sc.ready:
-				ok = (HasFact(fs, FTrue(MResult("doCanaryPaused", 0))) && HasFact(fs, FNil(MResult("doCanaryPaused", 1))) && HasFact(fs, stateIs(sc.paused))) ||
-					(allPaths(fn, st, FTrue(MCall("rollout.isRolloutPlanChanged"))) && HasFact(fs, FCmp("==", MField("NextStepIndex"), MResult("recalculateCanaryStep", 0))))
-				need = "doCanaryPaused()==(true,nil) in state " + sc.paused + ", or plan-changed handler when the recalculated step equals NextStepIndex"
-			case sc.init:
-				ok = (HasFact(fs, stateIs(sc.ready)) && HasFact(fs, FCmp(">", MLen(MField("Steps")), MHas(MField("CurrentStepIndex"))))) ||
-					(jumpGuard(fs) && HasFact(fs, replicasEqual(false))) ||
-					allPaths(fn, st, FTrue(MCall("rollout.isRollingBackInBatches"))) ||
-					HasFact(fs, FCmp("==", MField("Reason"), MConst(rInit)))
-				need = "state " + sc.ready + " with steps left; or jump to a step with different replicas; or rollback-in-batches; or progressing reason Initializing"
-			case sc.completed:
-				ok = (HasFact(fs, stateIs(sc.ready)) && HasFact(fs, FCmp("<=", MLen(MField("Steps")), MHas(MField("CurrentStepIndex"))))) ||
-					(HasFact(fs, FCmp("==", MField("Phase"), MConst(phaseHealthy))) && HasFact(fs, FTrue(MCall("IsSubStatusEmpty"))) && HasFact(fs, FFalse(MField("InRolloutProgressing"))))
-				need = "state " + sc.ready + " with no steps left; or first deployment (phase Healthy, no sub-status, workload not in progress)"
-			default:
-				need = "a known step state"
-			}
-			c.Ob("R2.1", construct+vt.Name+")", st.Pos(), ok, "CurrentStepState = "+vt.Name, ifs(!ok, "gate missing: "+need)).WithFacts(fs).Req(need)
-		}
-		for _, st := range StoresToField(fn, func(fa *ssa.FieldAddr) bool { return TermOf(fa).Fld == idxFld }) {
-			vt := TermOf(st.Val)
-			fs := FactsAtInstr(st)
-			construct := FuncName(fn) + "#store(CurrentStepIndex="
-			switch {
-			case vt.Op == "field" && vt.Name == "CurrentStepIndex" && !strings.Contains(FuncName(fn), "doCanaryJump"):
-				continue // copy code
-			case vt.Op == "const" && vt.Name == "1":
-				ok := HasFact(fs, FCmp("==", MField("Reason"), MConst(rInit))) || allPaths(fn, st, FTrue(MCall("rollout.isRollingBackInBatches")))
-				c.Ob("R2.1i", construct+"1)", st.Pos(), ok, "CurrentStepIndex = 1", ifs(!ok, "restart from step one outside Initializing / rollback-in-batches")).WithFacts(fs)
-			case vt.Op == "binop" && vt.Name == "+" && vt.Args[1].Op == "const" && vt.Args[1].Name == "1" && vt.Args[0].Op == "field" && vt.Args[0].Fld == idxFld:
-				ok := HasFact(fs, stateIs(sc.ready)) && HasFact(fs, FCmp(">", MLen(MField("Steps")), MHas(MField("CurrentStepIndex"))))
-				c.Ob("R2.1i", construct+"idx+1)", st.Pos(), ok, "CurrentStepIndex++", ifs(!ok, "increment outside (state Ready, steps left)")).WithFacts(fs)
-			case vt.Op == "field" && vt.Name == "NextStepIndex":
-				ok := jumpGuard(fs)
-				c.Ob("R2.1i", construct+"NextStepIndex)", st.Pos(), ok, "jump: CurrentStepIndex = NextStepIndex", ifs(!ok, "jump without NextStepIndex != natural next and > 0")).WithFacts(fs)
-			case vt.Any(MLen(MCall("GetSteps"))):
-				ok := HasFact(fs, FTrue(MCall("IsSubStatusEmpty"))) && HasFact(fs, FCmp("==", MField("Phase"), MConst(phaseHealthy)))
-				c.Ob("R2.1i", construct+"len(steps))", st.Pos(), ok, "first deployment shortcut", ifs(!ok, "len(steps) written outside (phase Healthy, empty sub-status)")).WithFacts(fs)
-			default:
-				c.Ob("R2.1i", construct+"other)", st.Pos(), false, "unrecognised write of the step index", "undecided: value "+vt.String()).WithFacts(fs)
-			}
-			// R2.1k: a stale NextStepIndex would be taken for a user's step-jump request on the next reconcile
-			isNext := func(in ssa.Instruction) bool {
-				s2, ok := in.(*ssa.Store)
-				if !ok {
-					return false
-				}
-				fa, ok := s2.Addr.(*ssa.FieldAddr)
-				if !ok {
-					return false
-				}
-				if n, _ := FieldOf(fa); n != "NextStepIndex" {
-					return false
-				}
-				return TermOf(s2.Val).Any(MCall("util.NextBatchIndex"))
-			}
-			reach, _ := CanReach(PointAfter(st), IsReturn, ReachOpts{CutInstr: isNext})
-			c.Ob("R2.1k", FuncName(fn)+"#pair(CurrentStepIndex,NextStepIndex)", st.Pos(), !reach, "NextStepIndex = NextBatchIndex(...) follows the index write on every path",
-				ifs(reach, "a return is reachable after the index write without re-deriving NextStepIndex (the stale value reads as a jump request)"))
-		}
-	}
-
-	// R2.1j: in each doCanaryJump the 'current' operand of DeepEqual is loaded before the cursor store
-	for _, fn := range p.FuncsMatching("doCanaryJump") {
-		var idxStores []*ssa.Store
-		for _, st := range StoresToField(fn, func(fa *ssa.FieldAddr) bool { return TermOf(fa).Fld == idxFld }) {
-			idxStores = append(idxStores, st)
-		}
-		des := CallsIn(fn, "reflect.DeepEqual")
-		if len(des) != 1 || len(idxStores) != 1 {
-			c.Ob("R2.1j", FuncName(fn)+"#jump-compare", fn.Pos(), false, "one DeepEqual and one cursor store expected in the jump", fmt.Sprintf("found %d / %d", len(des), len(idxStores)))
-			continue
-		}
-		de := des[0]
-		// collect loads of CurrentStepIndex / NextStepIndex feeding each operand
-		type opInfo struct {
-			loadsIdxAfterStore bool
-			usesNext, usesCur  bool
-		}
-		var ops []opInfo
-		for _, a := range de.Common().Args {
-			var oi opInfo
-			for v := range BackwardSlice(a) {
-				if u, ok := v.(*ssa.UnOp); ok {
-					if fa, ok := u.X.(*ssa.FieldAddr); ok {
-						n, _ := FieldOf(fa)
-						if n == "CurrentStepIndex" {
-							oi.usesCur = true
-							if r, _ := CanReach(PointAfter(idxStores[0]), func(in ssa.Instruction) bool { return in == ssa.Instruction(u) }, ReachOpts{}); r {
-								oi.loadsIdxAfterStore = true
-							}
-						}
-						if n == "NextStepIndex" {
-							oi.usesNext = true
-						}
-					}
-				}
-			}
-			ops = append(ops, oi)
-		}
-		ok := len(ops) == 2 && ((ops[0].usesNext && ops[1].usesCur && !ops[1].loadsIdxAfterStore && !ops[1].usesNext) ||
-			(ops[1].usesNext && ops[0].usesCur && !ops[0].loadsIdxAfterStore && !ops[0].usesNext))
-		c.Ob("R2.1j", FuncName(fn)+"#jump-compare", de.Pos(), ok, "DeepEqual(target step replicas, previous current step replicas)",
-			ifs(!ok, "one operand must be indexed by NextStepIndex and the other by the CurrentStepIndex value read before the cursor store (otherwise the step is compared with itself)"))
-	}
+	checkJumpCompare(c, "R2.1j")
 
 	// R2.2
 	for _, fn := range p.FuncsMatching("doCanaryUpgrade") {
@@ -413,4 +233,210 @@ func checkDispatch(c *Ctx, rule string, pausedOnly bool) {
 		}
 	}
 	// any other call that is not a predicate/handler/log must not exist before the paused check… (handlers are the only effects)
+}
+
+// checkStepStores classifies every store to CommonStatus.CurrentStepState / CurrentStepIndex in the
+// program and requires the gate of the transition. only!=nil restricts to some stored state values
+// (used by C03 for the entry into the TrafficRouting state) and then skips the index rules.
+func checkStepStores(c *Ctx, sc stepConsts, rState, rIdx, rPair string, only map[string]bool) {
+	p := c.Prog
+	stateFld := p.FieldVar("api/v1beta1", "CommonStatus", "CurrentStepState")
+	idxFld := p.FieldVar("api/v1beta1", "CommonStatus", "CurrentStepIndex")
+	if stateFld == nil || idxFld == nil {
+		c.Unresolved(rState, "fields v1beta1.CommonStatus.CurrentStepState/CurrentStepIndex")
+		return
+	}
+	rInit := ConstVal(p.ConstObj("api/v1alpha1", "ProgressingReasonInitializing"))
+	phaseHealthy := ConstVal(p.ConstObj("api/v1beta1", "RolloutPhaseHealthy"))
+	upgradeDone := func(fs []Fact) bool {
+		return HasFact(fs, FTrue(MResult("doCanaryUpgrade", 0))) && HasFact(fs, FNil(MResult("doCanaryUpgrade", 1)))
+	}
+	fullReplica := func(fs []Fact) bool {
+		return HasFact(fs, FTrue(MCall("v1beta1.IsRealPartition"))) &&
+			HasFact(fs, FCmp(">=", MResult("intstr.GetScaledValueFromIntOrPercent", 0), MHas(MField("Replicas"))))
+	}
+	jumpGuard := func(fs []Fact) bool {
+		return HasFact(fs, FCmp("!=", MField("NextStepIndex"), MCall("util.NextBatchIndex"))) &&
+			HasFact(fs, FCmp(">", MField("NextStepIndex"), MConst("0")))
+	}
+	replicasEqual := func(pol bool) FactM {
+		m := MCall("reflect.DeepEqual", MHas(MField("Replicas")), MHas(MField("Replicas")))
+		if pol {
+			return FTrue(m)
+		}
+		return FFalse(m)
+	}
+
+	// facts along call paths from doProgressingInRolling for the user-request handlers
+	pathFactsFrom := func(fn *ssa.Function, site ssa.Instruction) [][]Fact {
+		var out [][]Fact
+		for _, cp := range p.CallPaths(fn, func(f *ssa.Function) bool { return f.Name() == "doProgressingInRolling" }, 4) {
+			out = append(out, PathFacts(cp, site))
+		}
+		return out
+	}
+	allPaths := func(fn *ssa.Function, site ssa.Instruction, m FactM) bool {
+		pf := pathFactsFrom(fn, site)
+		if len(pf) == 0 {
+			return false
+		}
+		for _, fs := range pf {
+			if !HasFact(fs, m) {
+				return false
+			}
+		}
+		return true
+	}
+
+	for _, fn := range p.RepoFuncs() {
+		for _, st := range StoresToField(fn, func(fa *ssa.FieldAddr) bool { return TermOf(fa).Fld == stateFld }) {
+			vt := TermOf(st.Val)
+			construct := FuncName(fn) + "#store(CurrentStepState="
+			if vt.Op != "const" {
+				// copy code: value is a load of the same-named field of another object
+				if vt.Op == "field" && vt.Name == "CurrentStepState" {
+					continue
+				}
+				c.Ob(rState, construct+"non-constant)", st.Pos(), false, "step state written with a non-constant value", "undecided: "+vt.String())
+				continue
+			}
+			if only != nil && !only[vt.Name] {
+				continue
+			}
+			fs := FactsAtInstr(st)
+			var ok bool
+			var need string
+			switch vt.Name {
+			case sc.upgrade:
+				ok = HasFact(fs, stateIs(sc.init))
+				need = "in the case of state " + sc.init
+			case sc.routing:
+				ok = upgradeDone(fs) || (jumpGuard(fs) && HasFact(fs, replicasEqual(true)))
+				need = "doCanaryUpgrade()==(true,nil), or a jump (NextStepIndex != natural next, > 0) between steps of equal replicas"
+			case sc.analysis:
+				ok = (HasFact(fs, FTrue(MResult("trafficrouting.Manager.DoTrafficRouting", 0))) && HasFact(fs, FNil(MResult("trafficrouting.Manager.DoTrafficRouting", 1))) && HasFact(fs, stateIs(sc.routing))) ||
+					(upgradeDone(fs) && fullReplica(fs))
+				need = "DoTrafficRouting()==(true,nil) in state " + sc.routing + ", or upgrade done on a full-replica real-partition step (traffic handled in Init)"
+			case sc.paused:
+				ok = HasFact(fs, FTrue(MResult("doCanaryMetricsAnalysis", 0))) && HasFact(fs, stateIs(sc.analysis))
+				need = "doCanaryMetricsAnalysis done in state " + sc.analysis
+			case sc.ready:
+				ok = (HasFact(fs, FTrue(MResult("doCanaryPaused", 0))) && HasFact(fs, FNil(MResult("doCanaryPaused", 1))) && HasFact(fs, stateIs(sc.paused))) ||
+					(allPaths(fn, st, FTrue(MCall("rollout.isRolloutPlanChanged"))) && HasFact(fs, FCmp("==", MField("NextStepIndex"), MResult("recalculateCanaryStep", 0))))
+				need = "doCanaryPaused()==(true,nil) in state " + sc.paused + ", or plan-changed handler when the recalculated step equals NextStepIndex"
+			case sc.init:
+				ok = (HasFact(fs, stateIs(sc.ready)) && HasFact(fs, FCmp(">", MLen(MField("Steps")), MHas(MField("CurrentStepIndex"))))) ||
+					(jumpGuard(fs) && HasFact(fs, replicasEqual(false))) ||
+					allPaths(fn, st, FTrue(MCall("rollout.isRollingBackInBatches"))) ||
+					HasFact(fs, FCmp("==", MField("Reason"), MConst(rInit)))
+				need = "state " + sc.ready + " with steps left; or jump to a step with different replicas; or rollback-in-batches; or progressing reason Initializing"
+			case sc.completed:
+				ok = (HasFact(fs, stateIs(sc.ready)) && HasFact(fs, FCmp("<=", MLen(MField("Steps")), MHas(MField("CurrentStepIndex"))))) ||
+					(HasFact(fs, FCmp("==", MField("Phase"), MConst(phaseHealthy))) && HasFact(fs, FTrue(MCall("IsSubStatusEmpty"))) && HasFact(fs, FFalse(MField("InRolloutProgressing"))))
+				need = "state " + sc.ready + " with no steps left; or first deployment (phase Healthy, no sub-status, workload not in progress)"
+			default:
+				need = "a known step state"
+			}
+			c.Ob(rState, construct+vt.Name+")", st.Pos(), ok, "CurrentStepState = "+vt.Name, ifs(!ok, "gate missing: "+need)).WithFacts(fs).Req(need)
+		}
+		for _, st := range StoresToField(fn, func(fa *ssa.FieldAddr) bool { return TermOf(fa).Fld == idxFld }) {
+			if only != nil {
+				break
+			}
+			vt := TermOf(st.Val)
+			fs := FactsAtInstr(st)
+			construct := FuncName(fn) + "#store(CurrentStepIndex="
+			switch {
+			case vt.Op == "field" && vt.Name == "CurrentStepIndex" && !strings.Contains(FuncName(fn), "doCanaryJump"):
+				continue // copy code
+			case vt.Op == "const" && vt.Name == "1":
+				ok := HasFact(fs, FCmp("==", MField("Reason"), MConst(rInit))) || allPaths(fn, st, FTrue(MCall("rollout.isRollingBackInBatches")))
+				c.Ob(rIdx, construct+"1)", st.Pos(), ok, "CurrentStepIndex = 1", ifs(!ok, "restart from step one outside Initializing / rollback-in-batches")).WithFacts(fs)
+			case vt.Op == "binop" && vt.Name == "+" && vt.Args[1].Op == "const" && vt.Args[1].Name == "1" && vt.Args[0].Op == "field" && vt.Args[0].Fld == idxFld:
+				ok := HasFact(fs, stateIs(sc.ready)) && HasFact(fs, FCmp(">", MLen(MField("Steps")), MHas(MField("CurrentStepIndex"))))
+				c.Ob(rIdx, construct+"idx+1)", st.Pos(), ok, "CurrentStepIndex++", ifs(!ok, "increment outside (state Ready, steps left)")).WithFacts(fs)
+			case vt.Op == "field" && vt.Name == "NextStepIndex":
+				ok := jumpGuard(fs)
+				c.Ob(rIdx, construct+"NextStepIndex)", st.Pos(), ok, "jump: CurrentStepIndex = NextStepIndex", ifs(!ok, "jump without NextStepIndex != natural next and > 0")).WithFacts(fs)
+			case vt.Any(MLen(MCall("GetSteps"))):
+				ok := HasFact(fs, FTrue(MCall("IsSubStatusEmpty"))) && HasFact(fs, FCmp("==", MField("Phase"), MConst(phaseHealthy)))
+				c.Ob(rIdx, construct+"len(steps))", st.Pos(), ok, "first deployment shortcut", ifs(!ok, "len(steps) written outside (phase Healthy, empty sub-status)")).WithFacts(fs)
+			default:
+				c.Ob(rIdx, construct+"other)", st.Pos(), false, "unrecognised write of the step index", "undecided: value "+vt.String()).WithFacts(fs)
+			}
+			// R2.1k: a stale NextStepIndex would be taken for a user's step-jump request on the next reconcile
+			isNext := func(in ssa.Instruction) bool {
+				s2, ok := in.(*ssa.Store)
+				if !ok {
+					return false
+				}
+				fa, ok := s2.Addr.(*ssa.FieldAddr)
+				if !ok {
+					return false
+				}
+				if n, _ := FieldOf(fa); n != "NextStepIndex" {
+					return false
+				}
+				return TermOf(s2.Val).Any(MCall("util.NextBatchIndex"))
+			}
+			reach, _ := CanReach(PointAfter(st), IsReturn, ReachOpts{CutInstr: isNext})
+			c.Ob(rPair, FuncName(fn)+"#pair(CurrentStepIndex,NextStepIndex)", st.Pos(), !reach, "NextStepIndex = NextBatchIndex(...) follows the index write on every path",
+				ifs(reach, "a return is reachable after the index write without re-deriving NextStepIndex (the stale value reads as a jump request)"))
+		}
+	}
+
+}
+
+// checkJumpCompare: in each doCanaryJump the 'current' operand of DeepEqual is loaded before the cursor store.
+func checkJumpCompare(c *Ctx, rule string) {
+	p := c.Prog
+	idxFld := p.FieldVar("api/v1beta1", "CommonStatus", "CurrentStepIndex")
+	if idxFld == nil {
+		c.Unresolved(rule, "field CurrentStepIndex")
+		return
+	}
+	// R2.1j: in each doCanaryJump the 'current' operand of DeepEqual is loaded before the cursor store
+	for _, fn := range p.FuncsMatching("doCanaryJump") {
+		var idxStores []*ssa.Store
+		for _, st := range StoresToField(fn, func(fa *ssa.FieldAddr) bool { return TermOf(fa).Fld == idxFld }) {
+			idxStores = append(idxStores, st)
+		}
+		des := CallsIn(fn, "reflect.DeepEqual")
+		if len(des) != 1 || len(idxStores) != 1 {
+			c.Ob(rule, FuncName(fn)+"#jump-compare", fn.Pos(), false, "one DeepEqual and one cursor store expected in the jump", fmt.Sprintf("found %d / %d", len(des), len(idxStores)))
+			continue
+		}
+		de := des[0]
+		// collect loads of CurrentStepIndex / NextStepIndex feeding each operand
+		type opInfo struct {
+			loadsIdxAfterStore bool
+			usesNext, usesCur  bool
+		}
+		var ops []opInfo
+		for _, a := range de.Common().Args {
+			var oi opInfo
+			for v := range BackwardSlice(a) {
+				if u, ok := v.(*ssa.UnOp); ok {
+					if fa, ok := u.X.(*ssa.FieldAddr); ok {
+						n, _ := FieldOf(fa)
+						if n == "CurrentStepIndex" {
+							oi.usesCur = true
+							if r, _ := CanReach(PointAfter(idxStores[0]), func(in ssa.Instruction) bool { return in == ssa.Instruction(u) }, ReachOpts{}); r {
+								oi.loadsIdxAfterStore = true
+							}
+						}
+						if n == "NextStepIndex" {
+							oi.usesNext = true
+						}
+					}
+				}
+			}
+			ops = append(ops, oi)
+		}
+		ok := len(ops) == 2 && ((ops[0].usesNext && ops[1].usesCur && !ops[1].loadsIdxAfterStore && !ops[1].usesNext) ||
+			(ops[1].usesNext && ops[0].usesCur && !ops[0].loadsIdxAfterStore && !ops[0].usesNext))
+		c.Ob(rule, FuncName(fn)+"#jump-compare", de.Pos(), ok, "DeepEqual(target step replicas, previous current step replicas)",
+			ifs(!ok, "one operand must be indexed by NextStepIndex and the other by the CurrentStepIndex value read before the cursor store (otherwise the step is compared with itself)"))
+	}
+
 }
